@@ -145,7 +145,8 @@ def build_operand(kind, vals, unit):
         return osy.Array(values=vals, unit=unit)
     if kind in ("number_float", "number_int"):
         v = vals.ravel()[0] if hasattr(vals, "ravel") else vals
-        return float(v) if kind == "number_float" else int(v)
+        # a Python float operand always has a fractional part (also next to integer arrays: no cast to the array's dtype)
+        return (float(int(v)) + 0.5) if kind == "number_float" else int(v)
     if kind == "ndarray":
         return vals
     if kind == "Quantity":
